@@ -29,6 +29,6 @@ func init() {
 		Rule: "same history generator as C01 with weights favouring change/shrink/reprio/delete of intents that are partly or wholly shadowed; after every accepted transaction the full intended store (all priorities, owners, timestamps; read through the undecorated cache client) is compared as a set of (path, owner, priority, value) with the model's last accepted version of every intent. Non-trivial/distinct as for C01.",
 		Real: realCore, Stub: stubCore,
 		RequiredProbes: []string{"shadowed-owner-edited", "edit-reprio", "edit-shrink", "edit-delete"},
-		QuickSeconds: 35, ThoroughSeconds: 600,
+		QuickSeconds:   35, ThoroughSeconds: 600,
 	})
 }
